@@ -5,7 +5,8 @@ set -e
 export CARGO_NET_OFFLINE=true
 cd /verif/coq
 python3 /verif/tools/mkproject.py
-timeout 3000 make -j16
+# -k: a file of a check still under construction must not stop the others; every check re-runs its own targeted make
+timeout 3000 make -j16 -k || echo "setup: some Coq files did not compile (see above); each check reports on its own targets"
 cd /verif/harness
 [ -f Cargo.lock ] || cp /repo/Cargo.lock .
 mkdir -p /verif/build/harness-target
